@@ -27,7 +27,8 @@ type blockHeader struct {
 }
 
 var (
-	reHdrFlags = regexp.MustCompile(`\s*flags=\(([^)]*)\)`)
+	reHdrFlags     = regexp.MustCompile(`\s*flags=\(([^)]*)\)`)
+	reBraceComment = regexp.MustCompile(`\{\s*#.*$`)
 )
 
 // scanHeaders finds the block headers of a policy text: lines ending in '{'
@@ -37,7 +38,12 @@ func scanHeaders(text string) []blockHeader {
 	for _, line := range strings.Split(text, "\n") {
 		t := strings.TrimSpace(line)
 		if !strings.HasSuffix(t, "{") {
-			continue
+			// a comment may follow the opening brace of a header ('profile x { # why'): valid AppArmor
+			loc := reBraceComment.FindStringIndex(t)
+			if loc == nil || !(strings.HasPrefix(t, "profile") || strings.HasPrefix(t, "hat ") || strings.HasPrefix(t, "^")) {
+				continue
+			}
+			t = t[:loc[0]+1]
 		}
 		first := strings.Fields(t)
 		if len(first) == 0 {
